@@ -179,6 +179,17 @@ CVC5 = "/usr/bin/cvc5"
 STATS = {"z3": 0, "cvc5": 0, "time": 0.0, "queries": 0}
 
 
+def bool_as_int(v):
+    return z3.If(v, z3.IntVal(1), z3.IntVal(0)) if is_z3(v) and z3.is_bool(v) else v
+
+
+def same_value(a, b):
+    """a == b for z3 values that may be Bool on one side and Int on the other (Python: True == 1)."""
+    if is_z3(a) and is_z3(b) and z3.is_bool(a) != z3.is_bool(b):
+        return bool_as_int(a) == bool_as_int(b)
+    return a == b
+
+
 def feasible(pc):
     s = z3.Solver()
     s.set("timeout", 2000)
@@ -505,6 +516,9 @@ class Executor:
             return Tup(a.items + b.items)
         if isinstance(a, Lst) and isinstance(b, Lst) and isinstance(op, ast.Add):
             return Lst(a.items + b.items)
+        if is_z3(a) and is_z3(b) and (z3.is_bool(a) or z3.is_bool(b)) and isinstance(op, (ast.Add, ast.Sub, ast.Mult)):
+            # bool is a subtype of int: True + 1 == 2
+            return self.binop(st, op, bool_as_int(a), bool_as_int(b))
         raise Unsupported(f"binop {type(op).__name__} on {a!r}, {b!r}")
 
     def wrap_native(self, v):
